@@ -16,11 +16,12 @@ COQ_RUNNER = 'bad_group / bad_group_object'
 COQ_TYPES = ('gcase', 'list (list (nat * nat * nat))')
 SHARD = 400
 # two correspondence streams: calls of the functions (one gcase -> the placement matrix of the returned tables) and
-# histories of fits on ONE BycycleGroup object (list of gcase -> placement of df_features and, per model, the
-# placement of the table and the id of the signal it holds)
+# histories on ONE BycycleGroup object (the constructor's option-set id and a list of fits / re-assignments of the
+# settings attributes -> placement of df_features and, per model, the placement of the table and the id of the
+# signal it holds; the first component of a placement triple says WHICH option set the table was computed with)
 COQ_STREAMS = {
     'func': (COQ_HEADER, 'bad_group', COQ_TYPES, SHARD),
-    'object': (COQ_HEADER, 'bad_group_object', ('list gcase', 'gobs'), SHARD),
+    'object': (COQ_HEADER, 'bad_group_object', ('nat * list ghist', 'gobs'), SHARD),
 }
 FS, FR = 100, (3, 8)
 MISSING = 777
@@ -124,7 +125,178 @@ def gen_decoys(rng, shape):
 
 def run_decoys(bg, history):
     """Fit the object on every decoy array (undelayed workers, no progress bar)."""
+    run_history(bg, history)
+
+
+def decoy_term(d):
+    """Coq gcase of a decoy fit (identity completion order; the option argument is not used for objects)."""
+    if d['nd'] == 2:
+        return '(G2 %s GShared %d%%nat)' % (nat_list(range(d['n0'])), d['n0'])
+    ntasks = {0: d['n0'], 1: d['n1'], 2: d['n0'] * d['n1']}[d['ax']]
+    return '(G3 %d%%nat %s GShared %d%%nat %d%%nat)' % (d['ax'], nat_list(range(ntasks)), d['n0'], d['n1'])
+
+
+# ---------------------------------------------------------------------------------------------------------
+# settings attributes re-assigned between two fits of the same object (bg.center_extrema = 'trough',
+# bg.burst_method = 'amp', bg.thresholds = {...} (a NEW dict), bg.burst_kwargs = {...}, bg.find_extrema_kwargs = {...},
+# bg.return_samples = False).  A history step is either a decoy fit (dict with 'nd') or an assignment block
+# {'set': [[attribute, value], ...], 'vid': id of the option set the object holds afterwards}.  The harness keeps its
+# own record of the settings the user intends (never read back from the object); every fit is judged against the
+# per-signal reference with the settings in force WHEN fit IS CALLED.
+
+FEK_DEFAULT = {'filter_kwargs': {'n_cycles': 3}}
+CYC_DEFAULT_THR = {'amp_fraction_threshold': 0., 'amp_consistency_threshold': .5, 'period_consistency_threshold': .5,
+                   'monotonicity_threshold': .8, 'min_n_cycles': 3}
+# burst options with visibly different amplitude-method tables on make_sig signals (the default thresholds (1, 2) find no burst)
+BK_POOL = [{'amp_threshes': [0.8, 1.2]}, {'amp_threshes': [0.9, 1.1]}, {'amp_threshes': [0.8, 1.2], 'min_n_cycles': 2}, {}]
+VID0 = 1000              # assignment blocks get the ids 1001, 1002, ... (option-set ids of the pool are < 100)
+
+
+def initial_settings(mode, shared, return_samples):
+    """Settings a BycycleGroup holds after construction: from option set `shared` of the pool (mode 'dict') or the
+    documented defaults (mode 'none')."""
+    if mode == 'none':
+        return {'center_extrema': 'peak', 'burst_method': 'cycles', 'thresholds': dict(CYC_DEFAULT_THR), 'burst_kwargs': {},
+                'find_extrema_kwargs': dict(FEK_DEFAULT), 'return_samples': bool(return_samples)}
+    kw = KW_POOL[shared]
+    return {'center_extrema': kw['center_extrema'], 'burst_method': kw.get('burst_method', 'cycles'),
+            'thresholds': dict(kw['threshold_kwargs']), 'burst_kwargs': {},
+            'find_extrema_kwargs': dict(kw['find_extrema_kwargs']) if kw.get('find_extrema_kwargs') else dict(FEK_DEFAULT),
+            'return_samples': bool(return_samples)}
+
+
+def gen_reassign(rng, cur, vid):
+    """One assignment block from the settings `cur`: the values of another option set of the pool are assigned to ALL
+    settings attributes, or to a random non-empty subset of those that differ (a change of burst_method always comes
+    with matching thresholds, so that every fit is a valid call); sometimes burst_kwargs (amplitude method) and
+    return_samples as well.  Returns (step, new settings)."""
+    tgt = None
+    whole = rng.random() < 0.35
+    for _try in range(30):
+        a = rng.randrange(len(KW_POOL))
+        t = initial_settings('dict', a, cur['return_samples'])
+        diff = [k for k in ('center_extrema', 'burst_method', 'thresholds', 'find_extrema_kwargs') if t[k] != cur[k]]
+        if not diff:
+            continue
+        if not whole and t['burst_method'] != cur['burst_method'] and rng.random() < 0.6:
+            continue                                   # most partial blocks keep the method
+        tgt = t
+        break
+    if tgt is None:
+        return None, cur
+    if whole:
+        names = ['center_extrema', 'burst_method', 'thresholds', 'find_extrema_kwargs', 'burst_kwargs']
+    else:
+        names = [k for k in diff if rng.random() < 0.5] or [rng.choice(diff)]
+        if tgt['burst_method'] != cur['burst_method'] and ('burst_method' in names or 'thresholds' in names):
+            names = sorted(set(names) | {'burst_method', 'thresholds'})
+    new = dict(cur)
+    for k in names:
+        new[k] = tgt[k]
+    if new['burst_method'] == 'amp' and rng.random() < 0.5:
+        new['burst_kwargs'] = dict(rng.choice(BK_POOL))
+        names = list(names) + ['burst_kwargs']
+    elif new['burst_method'] != 'amp':
+        new['burst_kwargs'] = {}
+        if cur['burst_kwargs']:
+            names = list(names) + ['burst_kwargs']
+    if rng.random() < 0.2:
+        new['return_samples'] = not cur['return_samples']
+        names = list(names) + ['return_samples']
+    names = list(dict.fromkeys(names))
+    rng.shuffle(names)
+    return {'set': [[k, new[k]] for k in names], 'vid': vid}, new
+
+
+def gen_history(rng, shape, mode, shared, return_samples, force=False):
+    """History of an object before its judged fit: decoy fits on arrays of another shape (gen_decoys) and assignment
+    blocks.  Most histories with a re-assignment have it between a fit and the judged fit (a fit must not keep anything
+    of the settings an earlier fit ran with); some also before the first fit, some have no earlier fit at all."""
+    decoys = gen_decoys(rng, shape)
+    r = rng.random()
+    if not force and r < 0.35:
+        return decoys                                              # re-fits only, settings as constructed
+    cur = initial_settings(mode, shared, return_samples)
+    out, vid = [], VID0
+    if r > 0.9 and not force:
+        decoys = []                                                # construct, re-assign, first fit
+    if decoys and rng.random() < 0.25:
+        vid += 1
+        step, cur = gen_reassign(rng, cur, vid)                    # before the first fit as well
+        if step:
+            out.append(step)
+    for q, d in enumerate(decoys):
+        out.append(d)
+        if q + 1 < len(decoys) and rng.random() < 0.3:
+            vid += 1
+            step, cur = gen_reassign(rng, cur, vid)
+            if step:
+                out.append(step)
+    vid += 1
+    step, cur = gen_reassign(rng, cur, vid)                        # between the last earlier fit and the judged fit
+    if step:
+        out.append(step)
+    return out
+
+
+def versions(c_mode, shared, return_samples, history):
+    """[(id, settings)] of the option sets the object holds over the history: the constructor's first (id None: the
+    caller names it SHARED_ID / NONE_ID), then one per assignment block."""
+    cur = initial_settings(c_mode, shared, return_samples)
+    out = [(None, cur)]
+    for st in history or []:
+        if 'set' in st:
+            cur = dict(cur)
+            for k, v in st['set']:
+                cur[k] = v
+            out.append((st['vid'], cur))
+    return out
+
+
+def current_vid(history):
+    v = None
+    for st in history or []:
+        if 'set' in st:
+            v = st['vid']
+    return v
+
+
+def n_reassign(history):
+    return sum(1 for st in history or [] if 'set' in st)
+
+
+def n_decoys(history):
+    return sum(1 for st in history or [] if 'nd' in st)
+
+
+def _value(k, v, krng):
+    """Fresh Python value for an attribute assignment (a NEW dict every time; amp_threshes as a tuple)."""
+    if k == 'burst_kwargs':
+        return shuffled(krng, {a: (tuple(b) if a == 'amp_threshes' else b) for a, b in v.items()})
+    if k == 'find_extrema_kwargs':
+        return {a: (dict(b) if isinstance(b, dict) else b) for a, b in v.items()}
+    if k == 'thresholds':
+        return shuffled(krng, v)
+    return v
+
+
+def settings_kwargs(st):
+    """Keyword arguments of compute_features for settings st (without return_samples): what a user of the functional
+    API passes for them."""
+    return {'center_extrema': st['center_extrema'], 'burst_method': st['burst_method'],
+            'burst_kwargs': _value('burst_kwargs', st['burst_kwargs'], None),
+            'threshold_kwargs': dict(st['thresholds']),
+            'find_extrema_kwargs': _value('find_extrema_kwargs', st['find_extrema_kwargs'], None)}
+
+
+def run_history(bg, history, krng=None):
+    """Earlier life of the object: fit it on every decoy array (undelayed workers, no progress bar) and assign the
+    attributes of every assignment block."""
     for d in history or []:
+        if 'set' in d:
+            for k, v in d['set']:
+                setattr(bg, k, _value(k, v, krng))
+            continue
         n = d['n0'] * (d['n1'] or 1)
         sigs = np.array([make_sig(d['first_sig'] + q) for q in range(n)])
         if d['nd'] == 3:
@@ -132,12 +304,24 @@ def run_decoys(bg, history):
         bg.fit(sigs, FS, FR, axis=(0 if d['nd'] == 2 else AX3[d['ax']]), n_jobs=d['n_jobs'])
 
 
-def decoy_term(d):
-    """Coq gcase of a decoy fit (identity completion order, the object's shared option dictionary)."""
-    if d['nd'] == 2:
-        return '(G2 %s GShared %d%%nat)' % (nat_list(range(d['n0'])), d['n0'])
-    ntasks = {0: d['n0'], 1: d['n1'], 2: d['n0'] * d['n1']}[d['ax']]
-    return '(G3 %d%%nat %s GShared %d%%nat %d%%nat)' % (d['ax'], nat_list(range(ntasks)), d['n0'], d['n1'])
+def history_term(k0, history, judged):
+    """Coq input of the object stream: (constructor option-set id, [HFit decoy | HSet vid ...; HFit judged])."""
+    steps = [('(HSet %d%%nat)' % st['vid']) if 'set' in st else '(HFit %s)' % decoy_term(st) for st in history or []]
+    return '(%d%%nat, %s)' % (k0, coqio.lst(steps + ['(HFit %s)' % judged]))
+
+
+def history_note(history):
+    """Words for an oracle message."""
+    nd, ns = n_decoys(history), n_reassign(history)
+    if not nd and not ns:
+        return ''
+    parts = []
+    if nd:
+        parts.append('%d earlier fit(s) of the same object on arrays of another shape' % nd)
+    if ns:
+        last = [st for st in history if 'set' in st][-1]
+        parts.append('%d re-assignment(s) of settings attributes (last: %s)' % (ns, ', '.join(k for k, _ in last['set'])))
+    return ' after ' + ' and '.join(parts)
 
 
 def observe_object(bg, sigs, cands, want):
